@@ -48,7 +48,7 @@ func runC15(t *testing.T, seed uint64, m *Mask) *Report {
 	sc, nc, r := swarm(seed, m)
 	opt := world.Options{Seed: seed, Sim: sc, Net: nc}
 	proto := []string{"raw", "raw", "json", "pb", "thrift-binary"}[r.Intn(5)]
-	kinds := []string{"ok", "notfound", "badbody", "panic", "veto", "closed_call", "cut_pending", "dial_fail", "proxy_ok", "proxy_ok", "proxy_backend_closed", "proxy_push_backend_closed", "proxy_backend_cut", "proxy_push_ok", "reply_write_fails", "handshake_timeout"}
+	kinds := []string{"ok", "notfound", "badbody", "panic", "veto", "closed_call", "cut_pending", "dial_fail", "proxy_ok", "proxy_ok", "proxy_backend_closed", "proxy_push_backend_closed", "proxy_backend_cut", "proxy_push_ok", "reply_write_fails", "handshake_timeout", "plugin_panics_on_error_reply"}
 	n := 3 + r.Intn(13)
 	var hist []string
 	for i := 0; i < n; i++ {
@@ -100,7 +100,10 @@ func runC15(t *testing.T, seed uint64, m *Mask) *Report {
 			return nil
 		}}
 		pf := world.ProtoFunc(proto)
-		backend := e.NewPeer("backend", erpc.PeerConfig{}, veto)
+		// a reply-stamping plugin with a common bug: it assumes every reply has a body and panics on error replies
+		stampPanics := false
+		stamper := &c15Stamper{on: func() bool { p := stampPanics; stampPanics = false; return p }}
+		backend := e.NewPeer("backend", erpc.PeerConfig{}, veto, stamper)
 		rt := e.RegisterStd(backend)
 		// the proxy peer forwards everything over one session to the backend (re-established on demand)
 		var fwd erpc.Session
@@ -190,6 +193,16 @@ func runC15(t *testing.T, seed uint64, m *Mask) *Report {
 				simrt.WaitCond(func() bool { return done })
 			case "dial_fail":
 				cli.Dial("10.66.6.6:1", pf)
+			case "plugin_panics_on_error_reply":
+				// the reply to a call that already failed in the framework (unknown route) or in the handler makes a
+				// PreWriteReply plugin panic: the recovery path runs with the failure status in hand
+				stampPanics = true
+				op := mkop("call", []string{"/nope", "echo"}[e.Gen.Intn(2)])
+				if op.Route == "echo" {
+					op.HCode, op.HStatus = 1010, [3]string{"", "scripted", "cause"}
+				}
+				e.Issue(direct, rt, op, nil)
+				stampPanics = false
 			case "handshake_timeout":
 				// a pre-session receive (the auth checker's handshake) runs under a context age and the client
 				// stays silent: the read times out
@@ -273,4 +286,17 @@ func runC15(t *testing.T, seed uint64, m *Mask) *Report {
 	})
 	rep.Sample = strings.Join(hist, " ")
 	return finish(rep, out)
+}
+
+// c15Stamper is a PreWriteReply plugin that panics when asked to (a plugin that dereferences the reply body
+// without checking that there is one).
+type c15Stamper struct{ on func() bool }
+
+func (p *c15Stamper) Name() string { return "stamper" }
+func (p *c15Stamper) PreWriteReply(c erpc.WriteCtx) *erpc.Status {
+	if p.on() {
+		var body *string
+		_ = *body // nil dereference, as with Output().Body().(*T) on an error reply
+	}
+	return nil
 }
